@@ -44,6 +44,20 @@ class SBinStr:
     def __hash__(self):
         raise OutOfReach("hash of symbolic string")
 
+    def count(self, ch):
+        """number of occurrences of a one-character string (bin(x).count("1") = population count)"""
+        if ch not in ("0", "1", "b"):
+            return 0
+        tot = 0
+        for x in self.c:
+            if isinstance(x, str):
+                tot = tot + (1 if x == ch else 0)
+            elif ch == "1":
+                tot = x + tot
+            elif ch == "0":
+                tot = bnot(x) + tot
+        return tot
+
     def to_int(self, base):
         assert base == 2
         bits = []
@@ -57,11 +71,52 @@ class SBinStr:
         return SInt(bits).n()
 
 
+class LazyBin:
+    """bin(v) of a symbolic int, not yet materialised: population count needs no knowledge of the length; every other
+    use forks on the position of the most significant set bit (materialise)"""
+
+    def __init__(self, v):
+        self._v = v
+        self._m = None
+
+    def _mat(self):
+        if self._m is None:
+            self._m = _materialise(self._v)
+        return self._m
+
+    def count(self, ch):
+        if ch == "1":
+            tot = 0
+            for b in self._v.bits:
+                tot = b + tot
+            return tot
+        return self._mat().count(ch)
+
+    def __len__(self):
+        return len(self._mat())
+
+    def __getitem__(self, i):
+        return self._mat()[i]
+
+    def __eq__(self, o):
+        return self._mat() == o
+
+    def __hash__(self):
+        raise OutOfReach("hash of symbolic string")
+
+    def to_int(self, base):
+        return self._mat().to_int(base)
+
+
 def s_bin(v):
     if isinstance(v, (SBit, SLin)):
         v = SInt.lift(v)
     if not isinstance(v, SInt):
         return builtins.bin(v)
+    return LazyBin(v)
+
+
+def _materialise(v):
     # fork on the position of the most significant set bit
     for top in reversed(range(v.width())):
         b = v.bits[top]
